@@ -47,7 +47,8 @@ class Recorder:
                             "level": level, "recv": recv, "code": ""})
         if self.sc["abEm"] == self.em and self.sc["abRc"] == self.pos:
             self.raised = True
-            raise OptimizationAborted(exit_code=OptimizerExitCode.USER_ABORT)
+            # (the exit code is an IntEnum: every second abort gives it as the plain integer)
+            raise OptimizationAborted(exit_code=int(OptimizerExitCode.USER_ABORT) if (self.em + self.pos) % 2 else OptimizerExitCode.USER_ABORT)
 
 
 class RecHandler(ResultHandler):
@@ -96,7 +97,7 @@ def _drive(sc, outdir):
         calls["n"] += 1
         if sc["abCall"] == calls["n"]:
             rec.raised = True
-            raise OptimizationAborted(exit_code=OptimizerExitCode.USER_ABORT)
+            raise OptimizationAborted(exit_code=int(OptimizerExitCode.USER_ABORT) if calls["n"] % 2 else OptimizerExitCode.USER_ABORT)
         obj = variables.sum(axis=1, keepdims=True) + 1.0
         if sc["failAt"] == calls["n"]:
             obj = np.full_like(obj, np.nan)
